@@ -66,6 +66,38 @@ func componentClass(v ssa.Value) string {
 // keyAmbiguity returns "" when the concatenation is injective in its
 // components, else a description of the ambiguity.
 func keyAmbiguity(key ssa.Value) (string, []string) {
+	// a key that is the digest of successive Write calls is the digest of the
+	// concatenation of the written byte strings: components of arbitrary bytes
+	// cannot be delimited by separators, so at most one may have variable width
+	if c, ok := key.(*ssa.Call); ok && CalleeName(c) == "encoding/hex.EncodeToString" {
+		if sum, ok := c.Call.Args[0].(*ssa.Call); ok && sum.Call.IsInvoke() && sum.Call.Method.Name() == "Sum" {
+			h := sum.Call.Value
+			var classes []string
+			nvar := 0
+			EachInstr(c.Parent(), func(in ssa.Instruction) {
+				w, ok := in.(*ssa.Call)
+				if !ok || !w.Call.IsInvoke() || w.Call.Method.Name() != "Write" || w.Call.Value != h || len(w.Call.Args) != 1 {
+					return
+				}
+				cl := "var:bytes"
+				if sl, ok := w.Call.Args[0].(*ssa.Slice); ok && sl.Low == nil && sl.High == nil {
+					if p, ok := sl.X.Type().Underlying().(*types.Pointer); ok {
+						if _, isArr := p.Elem().Underlying().(*types.Array); isArr {
+							cl = "fixed"
+						}
+					}
+				}
+				if cl != "fixed" {
+					nvar++
+				}
+				classes = append(classes, cl)
+			})
+			if nvar > 1 {
+				return "the key is the digest of several variable-width byte strings written back to back with no length prefix: the boundary between them is not part of the digest", classes
+			}
+			return "", append([]string{"digest of:"}, classes...)
+		}
+	}
 	var comps []ssa.Value
 	keyComponents(key, &comps, 12)
 	var classes []string
@@ -251,6 +283,35 @@ func init() {
 					})
 					r.Cond(used && unguarded == "", "C37.verdict-used", FnName(site.Parent())+"#"+shortCallee(site), site.Pos(),
 						"the caller branches on the verdict and does all further work only under verdict = true; unguarded: "+unguarded)
+				}
+			}
+			// each cache field gets its own cache: keys carry no event-type tag, so two
+			// event kinds sharing one TimeCache could be mistaken for one another
+			r.Rule("C37.cache-per-event", "every TimeCache field is initialised with its own NewTimeCache", 4)
+			for _, fn := range r.W.AllFuncs {
+				byVal := map[ssa.Value][]string{}
+				var order []ssa.Value
+				EachInstr(fn, func(in ssa.Instruction) {
+					st, ok := in.(*ssa.Store)
+					if !ok {
+						return
+					}
+					fa, ok := st.Addr.(*ssa.FieldAddr)
+					if !ok || !strings.HasSuffix(typeName(st.Val.Type()), "pkg/cache.TimeCache") {
+						return
+					}
+					f := fieldName(fa.X.Type().Underlying().(*types.Pointer).Elem(), fa.Field)
+					if _, seen := byVal[st.Val]; !seen {
+						order = append(order, st.Val)
+					}
+					byVal[st.Val] = append(byVal[st.Val], f)
+				})
+				for _, v := range order {
+					fields := byVal[v]
+					c, isCall := v.(*ssa.Call)
+					fresh := isCall && strings.HasSuffix(CalleeName(c), "pkg/cache.NewTimeCache")
+					r.Cond(fresh && len(fields) == 1, "C37.cache-per-event", FnName(fn)+"#"+strings.Join(fields, "+"), v.Pos(),
+						"each cache field must receive its own NewTimeCache(...) result; fields sharing one cache: "+strings.Join(fields, ", "))
 				}
 			}
 			if len(scoped) < 4 {
